@@ -1,8 +1,10 @@
 import OrasModel.Driver.G
+import OrasModel.Driver.V
 open Oras.Driver
 
 structure DState where
   g : G.St := {}
+  v : V.St := {}
 
 def answer (r : Option (α × String × String)) (st : DState) (upd : α → DState) : DState × String :=
   match r with
@@ -15,6 +17,7 @@ def handle (st : DState) (line : String) : DState × String :=
   match splitWs line with
   | "case" :: _ => ({}, "m=ok s=ok")
   | "g" :: rest => answer (G.step st.g rest) st (fun g => { st with g := g })
+  | "v" :: rest => answer (V.step st.v rest) st (fun v => { st with v := v })
   | _ => (st, "bad-op")
 
 partial def loop (h : IO.FS.Stream) (out : IO.FS.Stream) (st : DState) : IO Unit := do
